@@ -31,15 +31,17 @@ def run_scenario(sess, sc, first=False):
             f.write(b"outside the cache")
         os.symlink(victim, os.path.join(sess.root, "evil-link"))
     xtmp = None
-    if sc.get("xdev_tmp"):
-        # <cache>/tmp lives on another file system (a symlink into /dev/shm): the rename that
-        # publishes content cannot be a rename
-        import tempfile
-        xtmp = tempfile.mkdtemp(prefix="verif-xtmp-", dir=sc["xdev_tmp"])
-        os.symlink(xtmp, os.path.join(sess.root, "tmp"))
     if sc.get("warm"):
         run_program(sess, {"keys": {}, "blobs": {}, "steps": sc["warm"]})
+    if sc.get("xdev_tmp"):
+        # from here on <cache>/tmp lives on another file system (a symlink into /dev/shm): the
+        # rename that publishes content cannot be a rename
+        import tempfile
+        xtmp = tempfile.mkdtemp(prefix="verif-xtmp-", dir=sc["xdev_tmp"])
+        shutil.rmtree(os.path.join(sess.root, "tmp"), ignore_errors=True)
+        os.symlink(xtmp, os.path.join(sess.root, "tmp"))
     fr = FsRun(sess.dir, sess)
+    fr.emulate_clone = bool(sc.get("emulate_clone"))
     # every visible entry must have its content, unless this scenario itself removes content by
     # address (remove_hash, remove_fully, clear) or its warm-up did
     unres = {"remove_hash", "remove_fully", "clear"}
@@ -208,6 +210,7 @@ def _run_fs_batch(args):
     nsys = 0
     fcases = set()
     hists = []
+    emu = False
     touches = []
     l2runs = []
     try:
@@ -216,8 +219,9 @@ def _run_fs_batch(args):
             inf = run_scenario(sess, sc, first=(i == 0))
             events += inf["events"]
             nsys += len(inf["calls"])
-            if mode == "conc" and len(sc["procs"]) > 1:
+            if mode == "conc" and (len(sc["procs"]) > 1 or sc.get("serial")):
                 hists.append(history_of(inf["events"]))
+            emu = emu or bool(sc.get("emulate_clone"))
             if sc.get("allowed"):
                 touches += touch_events(sess, sc, inf["events"])
             # L2 for every run in the thorough tier, for every third one in the quick tier
@@ -271,7 +275,8 @@ def _run_fs_batch(args):
                              "event": {"rel": ev.get("rel"), "name": ev.get("name")}, "props": ["C15", "C17"],
                              "touch_trace": lp})
         if hists:
-            sinfo, bad = validate_serial(hists, sess.u.lens(), os.path.join(bdir, "trace"), os.path.join(bdir, "tlc"))
+            sinfo, bad = validate_serial(hists, sess.u.lens(), os.path.join(bdir, "trace"), os.path.join(bdir, "tlc"),
+                                         reflink=emu)
             out["states"] += sinfo["states"]
             out["transitions"] += sinfo["transitions"]
             out["histories"] = len(hists)
@@ -457,7 +462,8 @@ def keyed_op_scenarios(rng, tier, lanes=("S", "Aa", "Ta")):
     out = []
     idx = 0
     for lane in lanes:
-        for kind in ("first", "overwrite", "remove", "remove_fully", "first_meta", "overwrite_hash_exists"):
+        for kind in ("first", "overwrite", "remove", "remove_fully", "first_meta", "overwrite_hash_exists",
+                     "overwrite_long", "remove_long"):
             prog = {"keys": {}, "blobs": {}, "steps": []}
             key = G.add_key(prog, "ключ-é-☃-%d" % idx)
             other = G.add_key(prog, "other-%d" % idx)
@@ -466,16 +472,22 @@ def keyed_op_scenarios(rng, tier, lanes=("S", "Aa", "Ta")):
             d_oth = G._mk_data(prog, rng, 5)
             d_next = G._mk_data(prog, rng, 8)
             warm = [{"op": "write", "lane": "S", "key": other, "data": d_oth, "algo": "sha256"}]
+            if kind in ("overwrite_long", "remove_long"):
+                # a key with a long history: its bucket has grown past 1 KiB / one 8 KiB read buffer
+                for j in range(rng.choice([6, 40])):
+                    warm.append({"op": "write", "lane": rng.choice(["S", "Aa", "Ta"]), "key": key,
+                                 "data": rng.choice([d_old, d_oth]), "algo": "sha256"})
+                warm.append({"op": "write", "lane": "S", "key": key, "data": d_old, "algo": "sha256"})
             if kind in ("overwrite", "remove", "remove_fully", "overwrite_hash_exists"):
                 warm.append({"op": "write", "lane": rng.choice(["S", "Aa"]), "key": key, "data": d_old, "algo": "sha256"})
             if kind == "overwrite_hash_exists":
                 warm.append({"op": "write", "lane": "S", "data": d_new, "algo": "sha256"})
-            if kind in ("first", "overwrite", "overwrite_hash_exists"):
+            if kind in ("first", "overwrite", "overwrite_hash_exists", "overwrite_long"):
                 st = {"op": "write", "lane": lane, "key": key, "data": d_new, "algo": "sha256", "how": "oneshot"}
             elif kind == "first_meta":
                 st = {"op": "write", "lane": lane, "key": key, "data": d_new, "algo": "sha256", "how": "streamed",
                       "chunks": [(0, 10), (10, 23)], "meta": {"é": "ü☃", "n": [1, 2]}}
-            elif kind == "remove":
+            elif kind in ("remove", "remove_long"):
                 st = {"op": "remove", "lane": lane, "key": key}
             else:
                 st = {"op": "remove_fully", "lane": lane, "key": key}
@@ -587,6 +599,15 @@ def fault_op_scenarios(rng, tier, lanes=("S", "Aa", "Ta")):
                         "plan": {"kind": "free"}, "cont": cont, "variant": {"kind": kind, "lane": lane},
                         "resolvable": kind != "remove_hash"})
             idx += 1
+            if kind in ("write", "write_hash") and os.path.isdir("/dev/shm") \
+                    and os.stat("/dev/shm").st_dev != os.stat("/").st_dev:
+                # the same write on a cache whose tmp/ is on another file system (publication cannot
+                # be a rename): with or without further faults it must fail cleanly or succeed truthfully
+                sc2 = dict(out[-1])
+                sc2["xdev_tmp"] = "/dev/shm"
+                sc2["cont"] = cont[1:]          # (a retry fails the same way on this layout)
+                sc2["variant"] = {"kind": kind + "_xdev", "lane": lane}
+                out.append(sc2)
     return out
 
 
@@ -653,10 +674,10 @@ def history_of(events):
     return {"ev": "hist", "init": init, "ops": [ops[p] for p in sorted(ops)], "final": final}
 
 
-def validate_serial(hists, lens, base, workdir):
+def validate_serial(hists, lens, base, workdir, reflink=False):
     path = base + ".serial.ndjson"
     with open(path, "w") as f:
-        f.write(json.dumps({"ev": "init", "lens": lens}) + "\n")
+        f.write(json.dumps({"ev": "init", "lens": lens, "reflink": bool(reflink)}) + "\n")
         for h in hists:
             f.write(json.dumps(h) + "\n")
     res = run_tlc("SerialAPI", "SerialAPI.cfg", workdir, env={"TRACE": path}, workers=1, timeout=1800, deque=False)
@@ -683,7 +704,7 @@ def validate_serial(hists, lens, base, workdir):
         if not rest or guard > 30:
             break
         with open(path + ".rest", "w") as f:
-            f.write(json.dumps({"ev": "init", "lens": lens}) + "\n")
+            f.write(json.dumps({"ev": "init", "lens": lens, "reflink": bool(reflink)}) + "\n")
             for h in rest:
                 f.write(json.dumps(h) + "\n")
         r2 = run_tlc("SerialAPI", "SerialAPI.cfg", workdir, env={"TRACE": path + ".rest"}, workers=1, timeout=1800)
@@ -719,7 +740,11 @@ def conc_ops(rng, tier):
         "e1": {"op": "exists", "sri": s1},
         "ls": {"op": "list"},
     }
+    long_hist = [{"op": "write", "lane": rng.choice(["S", "Aa"]), "key": k1, "data": rng.choice([d1, d2]), "algo": "sha256"}
+                 for _ in range(30)]
     warm_states = {
+        "long": long_hist + [{"op": "write", "lane": "S", "key": k1, "data": d1, "algo": "sha256"},
+                             {"op": "write", "lane": "S", "key": k2, "data": d2, "algo": "sha256"}],
         "cold": [],
         "warm": [{"op": "write", "lane": "S", "key": k1, "data": d1, "algo": "sha256"},
                  {"op": "write", "lane": "S", "key": k2, "data": d2, "algo": "sha256"}],
@@ -740,7 +765,7 @@ def conc_scenarios(rng, tier, lanes=("S", "Aa", "Ta")):
         pairs = must + extra
     out = []
     for (a, b) in pairs:
-        for wname in (["cold", "warm"] if not q else [rng.choice(["cold", "warm"]), "warm"]):
+        for wname in (["cold", "warm", "long"] if not q else [rng.choice(["cold", "warm"]), rng.choice(["warm", "long"])]):
             lane_a, lane_b = rng.choice(lanes), rng.choice(lanes)
             sa = dict(ops[a], lane=lane_a)
             sb = dict(ops[b], lane=lane_b)
@@ -804,11 +829,17 @@ def confinement_scenarios(rng, tier, lanes=("S", "Aa", "Ta")):
                ("read_missing", {"op": "read", "key": key}, False),
                ("metadata_missing", {"op": "metadata", "key": key}, False),
                ("list_missing", {"op": "list"}, False)]
+        # a cache that holds nothing but this key's bucket (a removal of a key never written):
+        # the removals must not touch anything above the bucket file, let alone the cache root
+        ops += [("remove_fully_bare", {"op": "remove_fully", "key": key}, "bare"),
+                ("remove_bare", {"op": "remove", "key": key}, "bare"),
+                ("clear_bare", {"op": "clear"}, "bare")]
         if q:
-            ops = [ops[0]] + rng.sample(ops[1:], 5)
+            ops = [ops[0]] + rng.sample(ops[1:-3], 4) + rng.sample(ops[-3:], 2)
         for name, st, needs in ops:
             lane = rng.choice(lanes)
-            warm = [{"op": "write", "lane": "S", "key": key, "data": d, "algo": "sha256"}] if needs else []
+            warm = [{"op": "write", "lane": "S", "key": key, "data": d, "algo": "sha256"}] if needs is True else \
+                   ([{"op": "remove", "lane": "S", "key": key}] if needs == "bare" else [])
             out.append({"universe": {"keys": prog["keys"], "blobs": prog["blobs"]}, "warm": warm,
                         "procs": [dict(st, lane=lane)], "plan": {"kind": "free"}, "cont": [],
                         "variant": {"key": ks[:40], "op": name, "lane": lane},
@@ -839,4 +870,43 @@ def touch_events(sess, sc, events):
                     continue        # a listing walks the whole index by design
                 out.append({"ev": "touch", "path": [b(x) for x in rel.split(os.sep)], "allowed": allowed,
                             "rel": rel, "name": e["name"]})
+    return out
+
+
+# ---------------------------------------------------------------------------------------
+# reflink success paths (C18 / C01): FICLONE emulated by the tracer
+# ---------------------------------------------------------------------------------------
+
+def reflink_scenarios(rng, tier, lanes=("S", "Aa", "Ta")):
+    out = []
+    idx = 0
+    for lane in lanes:
+        for checked in (True, False):
+            for keyed in (True, False):
+                for state in ("pristine", "flipped", "dest_exists", "missing"):
+                    if not checked and not keyed and lane != "S":
+                        continue          # reflink_hash_unchecked exists in the sync API only
+                    prog = {"keys": {}, "blobs": {}, "steps": []}
+                    key = G.add_key(prog, "reflink-%d" % idx)
+                    n = rng.choice([0, 9, 5000, 70000])
+                    d = G._mk_data(prog, rng, n)
+                    pre = G.add_blob(prog, b"already there")
+                    warm = [{"op": "write", "lane": "S", "key": key, "data": d, "algo": "sha256"}]
+                    x = "rl%d" % idx
+                    if state == "flipped" and n > 0:
+                        warm.append({"op": "env_content", "algo": "sha256", "blob": d, "mode": "flip", "bit": rng.randrange(n * 8)})
+                    elif state == "dest_exists":
+                        warm.append({"op": "env_ext", "id": x, "blob": pre})
+                    elif state == "missing":
+                        warm.append({"op": "env_content", "algo": "sha256", "blob": d, "mode": "remove"})
+                    st = {"op": "extract", "lane": lane, "kind": "reflink", "checked": checked, "to": x}
+                    if keyed:
+                        st["key"] = key
+                    else:
+                        st["sri"] = [{"a": "sha256", "d": d}]
+                    out.append({"universe": {"keys": prog["keys"], "blobs": prog["blobs"]}, "warm": warm,
+                                "procs": [st], "plan": {"kind": "free"}, "cont": [], "serial": True,
+                                "emulate_clone": True, "resolvable": False,
+                                "variant": {"lane": lane, "checked": checked, "keyed": keyed, "state": state, "n": n}})
+                    idx += 1
     return out
